@@ -1,0 +1,117 @@
+//go:build verif
+
+package storage
+
+// Verification hooks (build tag `verif`). Each hook forwards to a callback
+// that is nil unless a verification harness compiled into this package sets
+// it. The hooks only observe, or override a parameter (node capacity, cache
+// size, flush ticker); they never change the logic they are called from.
+
+var (
+	// vhIsFull may override the cell capacity of a node (small-scope trees).
+	vhIsFull func(n *btreeNode) (full bool, override bool)
+	// vhStoreCreated runs right after a fileStore value has been built.
+	vhStoreCreated func(f *fileStore)
+	// vhTickerCreated runs after the flush ticker exists and before the
+	// flusher goroutine starts; it may replace f.ticker.
+	vhTickerCreated func(f *fileStore)
+	// vhFlusherStart is the first thing the flusher goroutine does.
+	vhFlusherStart func(f *fileStore)
+	// vhTickDone runs in the flusher goroutine after each timer flush.
+	vhTickDone func(f *fileStore, err error)
+	// vhPoint is a scheduling / shared-state access point.
+	vhPoint func(f *fileStore, kind string)
+	// vhPageWrite runs immediately before a page is written to the data file.
+	vhPageWrite func(f *fileStore, off uint64, data []byte)
+	// vhHeaderWrite runs immediately before the file header is written.
+	vhHeaderWrite func(f *fileStore, data []byte)
+	// vhFetch runs at the start of every page fetch.
+	vhFetch func(f *fileStore, off uint64)
+	// vhMarkDirty runs whenever a page is stamped with an LSN.
+	vhMarkDirty func(n *btreeNode, lsn uint64)
+	// vhWalWrite runs immediately before each write call on the log file.
+	vhWalWrite func(w *wal, data []byte)
+	// vhWalSync runs immediately before each fsync of the log file.
+	vhWalSync func(w *wal)
+	// vhWalFlushEnd runs when a statement's log append is complete.
+	vhWalFlushEnd func(w *wal, records int)
+)
+
+func verifIsFull(n *btreeNode) (bool, bool) {
+	if vhIsFull != nil {
+		return vhIsFull(n)
+	}
+	return false, false
+}
+
+func verifStoreCreated(f *fileStore) {
+	if vhStoreCreated != nil {
+		vhStoreCreated(f)
+	}
+}
+
+func verifTickerCreated(f *fileStore) {
+	if vhTickerCreated != nil {
+		vhTickerCreated(f)
+	}
+}
+
+func verifFlusherStart(f *fileStore) {
+	if vhFlusherStart != nil {
+		vhFlusherStart(f)
+	}
+}
+
+func verifTickDone(f *fileStore, err error) {
+	if vhTickDone != nil {
+		vhTickDone(f, err)
+	}
+}
+
+func verifPoint(f *fileStore, kind string) {
+	if vhPoint != nil {
+		vhPoint(f, kind)
+	}
+}
+
+func verifPageWrite(f *fileStore, off uint64, data []byte) {
+	if vhPageWrite != nil {
+		vhPageWrite(f, off, data)
+	}
+}
+
+func verifHeaderWrite(f *fileStore, data []byte) {
+	if vhHeaderWrite != nil {
+		vhHeaderWrite(f, data)
+	}
+}
+
+func verifFetch(f *fileStore, off uint64) {
+	if vhFetch != nil {
+		vhFetch(f, off)
+	}
+}
+
+func verifMarkDirty(n *btreeNode, lsn uint64) {
+	if vhMarkDirty != nil {
+		vhMarkDirty(n, lsn)
+	}
+}
+
+func verifWalWrite(w *wal, data []byte) {
+	if vhWalWrite != nil {
+		vhWalWrite(w, data)
+	}
+}
+
+func verifWalSync(w *wal) {
+	if vhWalSync != nil {
+		vhWalSync(w)
+	}
+}
+
+func verifWalFlushEnd(w *wal, records int) {
+	if vhWalFlushEnd != nil {
+		vhWalFlushEnd(w, records)
+	}
+}
